@@ -182,6 +182,22 @@ class LibsModel:
                 cs = self.np_reduce(interp, st, 'cumsum', [x], {'axis': const(0)}, node)
                 return AV(ty='generator', elem=self.iter_item(interp, st, cs, None, None), deps=d, accumulate_of=x)
             return AV(ty='generator', elem=AV(deps=d), deps=d)
+        if qual in ('itertools.combinations', 'itertools.permutations', 'itertools.combinations_with_replacement') and len(args) >= 1:
+            r = args[1] if len(args) > 1 else kwargs.get('r')
+            el = self.iter_item(interp, st, args[0], node, None)
+            if r is not None and has_const(r) and cval(r) == 2 and el is not None:
+                def later(v):
+                    # the second member of a pair comes from a later position of the sequence
+                    if v is None:
+                        return v
+                    if v.ty == 'Row':
+                        return v.w(scan=(v.scan or 0) + 0.5)
+                    if v.elts is not None:
+                        return v.w(elts=[later(x) for x in v.elts])
+                    return v
+                return AV(ty='generator', elem=AV(ty='tuple', elts=[el, later(el)]), deps=d, maybe_empty=True,
+                          combos_of=(qual.split('.')[-1], args[0]))
+            return AV(ty='generator', elem=AV(ty='tuple', elem=el), deps=d, maybe_empty=True)
         if qual == 'itertools.compress':
             el = self.iter_item(interp, st, args[0], None, None)
             return AV(ty='generator', elem=el, deps=d)
@@ -241,6 +257,8 @@ class LibsModel:
             return AV(ty='opcaller', kind='attr', name=cval(args[0]), deps=d)
         if qual == 'operator.itemgetter' and len(args) == 1:
             return AV(ty='opcaller', kind='item', key=args[0], deps=d)
+        if qual == 'operator.itemgetter' and len(args) > 1:
+            return AV(ty='opcaller', kind='items', keys=list(args), deps=d)
         if qual == 'functools.partial' and args:
             return AV(ty='partial', target=args[0], pargs=list(args[1:]), pkwargs=dict(kwargs), deps=d)
         if qual == 'functools.update_wrapper' and args:
